@@ -348,6 +348,23 @@ def same(a, b) -> bool:
 # path exploration by re-execution
 
 
+DEADLINE = None  # wall-clock deadline of the current task (cooperative; checked between solver calls)
+
+
+class TaskTimeout(Exception):
+    pass
+
+
+def set_deadline(seconds):
+    global DEADLINE
+    DEADLINE = None if seconds is None else time.time() + seconds
+
+
+def check_deadline():
+    if DEADLINE is not None and time.time() > DEADLINE:
+        raise TaskTimeout()
+
+
 class Stats:
     def __init__(self):
         self.queries = 0
@@ -404,6 +421,7 @@ class Ctx:
         self.solver.pop()
 
     def _check(self, *extra):
+        check_deadline()
         t0 = time.time()
         r = self.solver.check(*extra)
         self.stats.solver_s += time.time() - t0
